@@ -159,6 +159,25 @@ class Model:
             yield {"op": "new_sec", "id": self.nid("S"),
                    "mod": r.choice(list(self.mods))}
         large = self.regime == "large"
+        if self.regime == "medium" and r.random() < 0.45:
+            # one crowded module: tens of sections, each with a few small
+            # intervals that touch, overlap or are empty
+            mod = r.choice(list(self.mods))
+            for _ in range(r.randint(17, 40)):
+                sid = self.nid("S")
+                yield {"op": "new_sec", "id": sid, "mod": mod}
+                base = r.randint(0, 60)
+                for _ in range(r.randint(1, 3)):
+                    o = self.gen_new_iv()
+                    o["sec"] = sid
+                    o["addr"] = None if r.random() < 0.05 else base
+                    o["size"] = r.choice([0, 0, 1, 2, 4, 8])
+                    o.pop("nbytes", None)
+                    base += r.choice([0, o["size"], o["size"], 1])
+                    yield o
+            for _ in range(r.randint(3, 20)):
+                yield self.gen_new_blk()
+            return
         if self.regime == "medium":
             # one crowded section and one crowded interval (tens of members)
             sec = r.choice(list(self.secs))
